@@ -336,6 +336,24 @@ Proof.
   intros R H. apply (tx_wf_run (sp_cfg true r tbl) R acts (mq0 _) [] [] s tr (inv0 _) H).
 Qed.
 
+(* ---- the C13 statements for executions from the initial state ---- *)
+Theorem sp_strict_run r tbl acts s tr a s' o f g :
+  0 < r -> NoDup (map fst tbl) ->
+  sp_run r tbl acts = Some (s, tr) -> sp_act r tbl s a = Some (s', o) ->
+  In (OVisit f true) o -> higher tbl f g ->
+  sq_held (mstores s' g) = [] /\ items (mstores s g) = [] /\ (exists rem, mpc s' = PGet f rem) /\ mnow s' = mnow s.
+Proof. intros R ND H. apply sp_strict_commit; auto. exists acts, tr. exact H. Qed.
+
+Theorem sp_strict_at_start_run r tbl acts s tr s' o p g :
+  0 < r -> NoDup (map fst tbl) ->
+  sp_run r tbl acts = Some (s, tr) -> sp_act r tbl s SChildInit = Some (s', o) ->
+  In (OStart p) o -> higher tbl (flow p) g -> Forall (fun x => fst x = mnow s) (sq_held (mstores s g)).
+Proof. intros R ND H. apply sp_strict_at_start; auto. exists acts, tr. exact H. Qed.
+
+Theorem sp_commit_same_instant_run r tbl acts s tr f t :
+  0 < r -> sp_run r tbl acts = Some (s, tr) -> committed s f -> sp_act r tbl s (SAdvance t) = None.
+Proof. intros R H. apply sp_commit_same_instant; auto. exists acts, tr. exact H. Qed.
+
 (* ---- C12 / C08 for SP: the generic theorems instantiated ---- *)
 Lemma sp_work_conserving : forall (r : Q) (tbl : list (Z * Z)) acts s tr t x,
   0 < r -> (forall f p, In (f, p) tbl -> (0 < p)%Z) ->
